@@ -291,11 +291,18 @@ def perfsqrFold (r : Nat) : Nat := (r &&& ((1 <<< mod34Bits) % B - 1)) + (r >>> 
 /-- PERFSQR_MOD_TEST on the folded residue. -/
 def perfsqrModTest (r : Nat) : Bool := perfsqrTests.all fun t => perfsqrTest t r
 
-/-- mpn_perfect_square_p ({up, usize}), usize â‰¥ 1. -/
+/-- the third test of mpn_perfect_square_p (perfect_square_p.c:211-231): `MPN_NORMALIZE (up, usize);
+    if (usize == 0) return 1;` (zero is a square; mpn_sqrtrem needs a non-zero most significant limb),
+    then `res = ! mpn_sqrtrem (root_ptr, NULL, up, usize)`. -/
+def perfectSquareFinal (up : List Nat) : Bool :=
+  let nz := normalize up
+  if nz.isEmpty then true else (sqrtrem nz).rn == 0
+
+/-- mpn_perfect_square_p ({up, usize}), usize â‰¥ 1; high zero limbs are allowed. -/
 def perfectSquareP (up : List Nat) : Bool :=
   if !sqRes256 (up.headD 0) then false
   else if !perfsqrModTest (perfsqrFold (mod34lsub1 up)) then false
-  else (sqrtrem up).rn == 0                       -- res = ! mpn_sqrtrem (root_ptr, NULL, up, usize)
+  else perfectSquareFinal up
 
 /-! ## mpn_rootrem at value level (rootrem.c, rootrem_basecase.c) -/
 
@@ -386,6 +393,8 @@ def rrLoop (U k : Nat) (approx : Bool) : List Nat â†’ Nat Ã— Nat Ã— Nat Ã— Nat â
 def rootremInternal (U k : Nat) (approx : Bool) : Nat Ã— Nat Ã— Bool :=
   let unb := bitLen U
   let xnb := (unb - 1) / k + 1
+  -- rootrem.c:118-138: the root-is-1 exit is taken BEFORE the temporaries qp/rp/wp (whose size grows with k)
+  -- are allocated; allocations are not represented at value level, the order is pinned by PINS
   if xnb = 1 then (1, U - 1, false) else
   let kk := k * (xnb - 1)
   let R := (U >>> kk) - 1
